@@ -41,6 +41,49 @@ fn has_observe_on(p: Pipe) -> bool {
   !matches!(p, Pipe::SubscribeOn | Pipe::SubscribeOnMap | Pipe::SubscribeOnTake1)
 }
 
+/// the same Observable value subscribed twice, the second time after the first run is over
+pub fn twice_scn(p: Pipe, script: Vec<Emit<i64>>, threaded: bool, q: Option<u32>, t: Option<u32>) -> Scn {
+  let name = format!("c09/{:?} {} source P({}) subscribed twice in a row", p, if threaded { "threaded" } else { "synchronous" }, script_label(&script));
+  let family = if is_subscribe_on(p) { "subscribe_on" } else { "observe_on" };
+  let mut sc = scn(&name, family, q, t, move || {
+    let (r1, r2) = (Rec::new(), Rec::new());
+    let causes = Causes::new();
+    let (r1b, r2b, causes2, script2) = (r1.clone(), r2.clone(), causes.clone(), script.clone());
+    let body: Body = Box::new(move || {
+      let src = if threaded { threaded_source("a", script2.clone(), vec![], causes2.clone()) } else { sync_source("a", script2.clone(), causes2.clone()) };
+      let o = build(p, src);
+      let _s1 = r1b.sub_i64(&o);
+      // virtual time only advances when nothing else can run: this waits for the first run to finish
+      another_rxrust::vstd::thread::sleep(ms(5));
+      let _s2 = r2b.sub_i64(&o);
+    });
+    let script3 = script.clone();
+    let check: Check = Box::new(move |e: &ExecEnd| {
+      let mut v = base_violations(e, &[]);
+      let take1 = matches!(p, Pipe::ObserveOnTake1 | Pipe::SubscribeOnTake1);
+      let want: Vec<EvK> = script3
+        .iter()
+        .map(|x| match x {
+          Emit::N(k) => EvK::Next(*k),
+          Emit::E(k) => EvK::Error(*k),
+          Emit::C => EvK::Complete,
+        })
+        .collect();
+      let want: Vec<EvK> = if take1 && matches!(want.first(), Some(EvK::Next(_))) { vec![want[0].clone(), EvK::Complete] } else { want };
+      for (i, r) in [&r1, &r2].iter().enumerate() {
+        let got: Vec<EvK> = r.events().iter().map(|x| x.k.clone()).collect();
+        if got != want {
+          v.push(viol(if i == 0 { "first-subscription-wrong" } else { "second-subscription-lost-events" }, format!("subscription {} got {}, want {:?}; threads {}", i + 1, r.short(), want, thread_summary(e))));
+        }
+      }
+      Verdict { outcome: format!("{} || {} | {}", r1.short(), r2.short(), thread_summary(e)), violations: v }
+    });
+    (body, check)
+  });
+  sc.min_conflicts = 1;
+  sc
+}
+
 pub fn pipe_scn(p: Pipe, script: Vec<Emit<i64>>, threaded: bool, unsub: bool, q: Option<u32>, t: Option<u32>) -> Scn {
   let name = format!(
     "c09/{:?} {} source P({}){}",
@@ -163,6 +206,9 @@ pub fn scenarios() -> Vec<Scn> {
         }
       }
     }
+    // re-subscription of the same Observable value
+    v.push(twice_scn(p, vec![N(1), N(2), C], false, Some(1), Some(2)));
+    v.push(twice_scn(p, vec![N(1), E(7)], true, None, Some(2)));
   }
   v
 }
